@@ -7,6 +7,9 @@
   C24-EAGER  an override whose base method returns a lazy view over the map (``reversed``,
              ``iter``, a generator) materialises it (``list(...)``) while the lock is held —
              listing keys/values/items or iterating cannot observe a concurrent mutation.
+  C24-PRESENCE a key is present iff it is in the map: ``get`` reaches a present key through
+             ``self[key]`` / the base ``get`` (KeyError -> default) and no method reads the map
+             with ``_cache.get`` / ``pop(k, d)`` / ``setdefault`` (value-based presence).
   C24-ORDER  cheap necessary conditions of the sequential semantics: a read moves the key to
              the recent end; a write of an existing key moves it, a write of a new key evicts
              ``popitem(last=False)`` iff ``len(cache) >= capacity`` before inserting; listing
@@ -36,7 +39,7 @@ def touches_cache(fn) -> bool:
 
 def run(repo: Repo) -> Result:
     res = Result(PID)
-    res.rules = ["C24-LOCK", "C24-EAGER", "C24-ORDER", "C24-USE"]
+    res.rules = ["C24-LOCK", "C24-EAGER", "C24-PRESENCE", "C24-ORDER", "C24-USE"]
     res.explanation = "lock coverage of every shared-map access, eager materialisation of lazy views under the lock, and structural necessary conditions of LRU order"
     res.assumptions = ["a single len() of an OrderedDict is atomic under the GIL", "sequential LRU semantics over histories are value-level"]
     base, safe = repo.cls(BASE), repo.cls(SAFE)
@@ -105,6 +108,33 @@ def run(repo: Repo) -> Result:
     if init is None or "self._lock = Lock()" not in text(init.node) and "self._lock = RLock()" not in text(init.node):
         res.add("C24-LOCK", SAFE, "lock-init", "ThreadSafeLRUCache.__init__ must create self._lock", safe.file, safe.node.lineno)
 
+    # ---- C24-PRESENCE: a key is present iff it is in the map — whatever its value -----------
+    # `get` must find a present key through `self[key]` (KeyError = absent, and the read
+    # refreshes recency) or an explicit membership test; deciding presence from the stored
+    # *value* (`self._cache.get(key) is None`, truthiness) turns a cached None / falsy value
+    # into a miss and skips the recency update.
+    for cq in (BASE, SAFE):
+        k = repo.cls(cq)
+        for name, m in k.methods.items():
+            for c in calls(m.node):
+                if callee_name(c) in ("get", "pop", "setdefault") and isinstance(c.func, ast.Attribute) and attr_chain(c.func.value) == ["self", "_cache"] and (callee_name(c) != "pop" or len(c.args) > 1):
+                    res.add("C24-PRESENCE", m.qual, f"_cache.{callee_name(c)}", f"{m.qual} reads the map with `{text(c)[:50]}`: presence is then decided from the stored value, so a cached None is reported missing (and the read does not refresh recency)", m.file, c.lineno)
+        g = k.methods.get("get")
+        if g is None:
+            continue
+        res.ob(f"presence:{g.qual}")
+        hit_via_getitem = any(isinstance(n, ast.Subscript) and is_name(n.value, "self") and isinstance(n.ctx, ast.Load) for n in ast.walk(g.node)) or any(callee_name(c) == "__getitem__" for c in calls(g.node))
+        delegates = any(callee_name(c) == "get" and isinstance(c.func.value, ast.Call) and callee_name(c.func.value) == "super" for c in calls(g.node))
+        if not (hit_via_getitem or delegates):
+            res.add("C24-PRESENCE", g.qual, "hit-path", f"{g.qual} must return a present key's value through self[key] (which refreshes recency) or delegate to the base get", g.file, g.line)
+        for n in ast.walk(g.node):
+            if isinstance(n, ast.Try) and any(isinstance(x, ast.Subscript) and is_name(x.value, "self") for b in n.body for x in ast.walk(b)):
+                from ..astutil import handler_types as _ht
+
+                hs = [t for h in n.handlers for t in _ht(h)]
+                if hs != ["KeyError"]:
+                    res.add("C24-PRESENCE", g.qual, f"handler:{hs}", f"{g.qual} must map exactly KeyError to the default", g.file, n.lineno)
+
     # ---- C24-ORDER ---------------------------------------------------------------
     gi = base.methods["__getitem__"]
     res.ob("order:getitem")
@@ -163,6 +193,7 @@ def selftest(repo: Repo):
 
     P = "liquid/utils/lru_cache.py"
     return [
+        v("get-treats-none-as-miss", P, "        try:\n            return self[key]\n        except KeyError:\n            return default\n\n    def keys(self) -> Iterator[_KT]:\n        \"\"\"Return an iterator over this cache's keys.\"\"\"\n        return reversed(self._cache.keys())", "        value = self._cache.get(key)\n        if value is None:\n            return default\n        self._cache.move_to_end(key)\n        return value\n\n    def keys(self) -> Iterator[_KT]:\n        \"\"\"Return an iterator over this cache's keys.\"\"\"\n        return reversed(self._cache.keys())", "C24-PRESENCE"),
         v("keys-lazy", P, "            return iter(list(super().keys()))", "            return super().keys()", "C24-EAGER"),
         v("iter-not-overridden", P, "    def __iter__(self) -> Iterator[_KT]:\n        with self._lock:\n            return iter(list(super().__iter__()))\n", "", "not-overridden:__iter__"),
         v("setitem-unlocked", P, "        with self._lock:\n            return super().__setitem__(key, value)", "        return super().__setitem__(key, value)", "C24-LOCK"),
